@@ -41,6 +41,7 @@ def run(ctx):
             seen.add(keyfn(r))
             vlib.report(ctx, keyfn(r), '%s: %s on %s: first seen under [%s], now [%s] (processes that met the configurations in different orders)' % (
                 r['lint'], r['why'], r['event'].get('obj'), r['info'], r['event'].get('tag')), dict(kind='history', phases='cfgfirst', obj=r['event'].get('obj'), lint=r['lint'], why=r['why']))
+    cfgdoc(ctx, exe)
     keep = []
     for v in ctx.violations:
         rp = json.load(open(v['replay']))['replay']
@@ -53,13 +54,51 @@ def run(ctx):
                rule='evaluation = one Lint*Ex call under a configuration of the catalogue (on the global registry, on copies, on children born under another configuration, '
                     'after resets) or inside a replayed model history; non-trivial = distinct (configurable lint, section shape) pairs on an object where the lint is not NA',
                samples=[s['sample']], configurations=s.get('configurations'), configurable=s.get('configurable'), model_histories=s.get('model_histories'),
-               objects=s['objects'], events=nev, trusted_base=['go-toml', 'fnv digest of details'])
+               objects=s['objects'], events=nev, config_documents=ctx.cov.get('config_documents'), config_document_runs=ctx.cov.get('config_document_runs'), trusted_base=['go-toml', 'fnv digest of details'])
     return vlib.finish(ctx, 'model_checking', cov, ASSUME)
+
+
+def cfgdoc(ctx, exe):
+    """ConfigDoc.tla: the configuration as a document resolved into option structs (own section, higher-scoped sections by value /
+    by pointer / nested / unexported), bound with mock lints registered through the public API; the example configuration too."""
+    vlib.tlc_mc(ctx, 'MC_ConfigDoc', 'MC_ConfigDoc', workers=2)
+    rec, out = vlib.tlc_mc(ctx, 'MC_ConfigDoc_export', 'MC_ConfigDoc_export', workers=1)
+    exp = ctx.path('cfgdoc.export')
+    open(exp, 'w').write(out)
+    d = vlib.drive(ctx, exe, 'cfgdoc', env={'VERIF_EXPORT': exp})
+    s = json.load(open(os.path.join(d, 'summary.json')))
+    rejects, lines = vlib.tlc_trace(ctx, 'Trace_ConfigDoc', os.path.join(d, 'cfgdoc.ndjson'), shards=4)
+    seen = {}
+    for (ln, payload) in rejects:
+        e = json.loads(lines[ln - 1])
+        for (lintname, why) in payload[0]:
+            if why.startswith('fid-'):
+                msg = 'configuration document: %s %s' % (lintname, why)
+                if msg not in ctx.drift:
+                    ctx.drift.append(msg)
+                continue
+            key = 'cfgdoc:%s:%s' % (lintname or e['ev'], why)
+            seen[key] = seen.get(key, 0) + 1
+            if seen[key] > 1:
+                continue
+            obs = [o for o in e.get('obs', []) if o['lint'] == lintname]
+            vlib.report(ctx, key, '%s: %s under the configuration %r (%s): observed %s' % (
+                lintname or e['ev'], why, e.get('toml', ''), e.get('docIs', ''), json.dumps(obs)[:300]),
+                dict(kind='cfgdoc', toml=e.get('toml'), doc=e.get('doc'), docIs=e.get('docIs'), lint=lintname, why=why))
+    ctx.cov['config_documents'] = s['documents']
+    ctx.cov['config_document_runs'] = s['runs']
+    return s
 
 
 def replay(ctx, rp):
     exe = vlib.build(ctx)
     r = rp['replay']
+    if r.get('kind') == 'cfgdoc':
+        print(json.dumps(r, indent=1)[:3000])
+        cfgdoc(ctx, exe)
+        for v in ctx.violations:
+            print('REJECT', v['key'], v['what'][:300])
+        return 1 if ctx.violations else 0
     d, _ = histcommon.run_history(ctx, exe, 'config', 'replay', only=r['obj'])
     rej, _ = histcommon.validate(ctx, os.path.join(d, 'history.ndjson'), shards=1)
     for x in rej:
